@@ -27,6 +27,8 @@
 (*                  stores, trust file and job shelves are re-opened       *)
 (*   Replay(t,f)    Notifier.Run delivers a job that was left on the shelf *)
 (*                  (state "retry" AND state "dead"), in shelf (hash) order*)
+(*                  - except jobs whose recorded error ends with "context  *)
+(*                  not on the remoteallowlist" (notifier.go, issue 2569)  *)
 (*   Reprocess(t)   Network.Reprocess -> handleReprocessEvent: the handler *)
 (*                  is called outside the job bookkeeping, errors are only *)
 (*                  logged                                                 *)
@@ -51,6 +53,13 @@
 (*                       retried; the code answers EventFatal: the payload *)
 (*                       is only looked at again by the start-up replay    *)
 (*                       or Reprocess                 [X07-dropped-nokey]  *)
+(*   ContextErrorsSeen   handleError recognises a JSON-LD context error    *)
+(*                       below the signature check of a CREDENTIAL (not on *)
+(*                       the allow list: acknowledged; remote context not  *)
+(*                       loadable: retried).  The code wraps the error in  *)
+(*                       verifier.VerificationError, which has no Unwrap:  *)
+(*                       errors.Is / errors.As never match and both cases  *)
+(*                       end as EventFatal            [X07-dropped-ctx]    *)
 (***************************************************************************)
 EXTENDS Naturals, FiniteSets, Sequences, TLC
 
@@ -65,7 +74,7 @@ CONSTANTS
     InitKeys,      \* issuers whose DID document is known at the start
     LateKeys,      \* issuers whose DID document may arrive later
     MaxRestart, MaxReproc, MaxFault, MaxTrustOps,
-    ValidateOnStore, TransientRetried, UnknownKeyRetried,
+    ValidateOnStore, TransientRetried, UnknownKeyRetried, ContextErrorsSeen,
     \* ---- mode "pub"
     Parties,       \* DID names on the issuing node
     Comm,          \* party -> [k |-> "own" | "ref" | "none" | "ghost", to |-> party]   (NutsComm service of its document; ghost = no document)
@@ -147,10 +156,11 @@ Outcome(t, f) == IF t \in CredTx THEN CredOutcome(t, f) ELSE RevOutcome(t, f)
 Writes(t) == Outcome(t, FALSE) \in {"stored", "blind", "registered"}
 
 \* ambassador.handleError + the notifier: what becomes of the job
-OkClasses == {"stored", "dup", "blind", "ctxdenied", "registered"}
-RetryClassesV(tr, uk) == {"ctxdown"} \cup (IF tr THEN {"fault"} ELSE {}) \cup (IF uk THEN {"nokey"} ELSE {})
-JobAfterV(o, tr, uk) == IF o \in OkClasses THEN "done" ELSE IF o \in RetryClassesV(tr, uk) THEN "retry" ELSE "dead"
-JobAfter(o) == JobAfterV(o, TransientRetried, UnknownKeyRetried)
+OkClasses == {"stored", "dup", "blind", "registered"}
+AckClassesV(cx) == OkClasses \cup (IF cx THEN {"ctxdenied"} ELSE {})
+RetryClassesV(tr, uk, cx) == (IF cx THEN {"ctxdown"} ELSE {}) \cup (IF tr THEN {"fault"} ELSE {}) \cup (IF uk THEN {"nokey"} ELSE {})
+JobAfterV(o, tr, uk, cx) == IF o \in AckClassesV(cx) THEN "done" ELSE IF o \in RetryClassesV(tr, uk, cx) THEN "retry" ELSE "dead"
+JobAfter(o) == JobAfterV(o, TransientRetried, UnknownKeyRetried, ContextErrorsSeen)
 TransientClasses == {"ctxdown", "fault", "nokey"}
 
 Apply(t, o) ==
@@ -184,7 +194,7 @@ Retry(t, f) ==
 Restart ==
     /\ Running /\ restarts < MaxRestart
     /\ restarts' = restarts + 1
-    /\ replay' = {t \in Tx : jobs[t] \in {"retry", "dead"}}
+    /\ replay' = {t \in Tx : jobs[t] \in {"retry", "dead"} /\ why[t] # "ctxdenied"}
     /\ last' = [a |-> "Restart", t |-> "", res |-> ""]
     /\ Log([a |-> "Restart"])
     /\ UNCHANGED <<stored, blind, revs, trust, keys, ctxUp, jobs, why, reprocs, faults, tops, pcfg, pubs>>
